@@ -8,7 +8,9 @@ use std::task::{Context, Poll};
 
 use crate::app::EndpointType;
 use crate::decode::DecodeLevel;
-use crate::link::format::{format_data_frame, format_header_fixed_size, format_header_only, Payload};
+use crate::link::format::{
+    format_data_frame, format_header_fixed_size, format_header_only, Payload,
+};
 use crate::link::header::{AnyAddress, ControlField, Header};
 use crate::link::parser::FramePayload;
 use crate::link::reader::{LinkModes, Reader as LinkReader};
@@ -37,8 +39,16 @@ fn poll_once<F: Future>(fut: Pin<&mut F>) -> Poll<F::Output> {
 
 fn modes(close: bool, datagram: bool) -> LinkModes {
     LinkModes {
-        error_mode: if close { LinkErrorMode::Close } else { LinkErrorMode::Discard },
-        read_mode: if datagram { LinkReadMode::Datagram } else { LinkReadMode::Stream },
+        error_mode: if close {
+            LinkErrorMode::Close
+        } else {
+            LinkErrorMode::Discard
+        },
+        read_mode: if datagram {
+            LinkReadMode::Datagram
+        } else {
+            LinkReadMode::Stream
+        },
     }
 }
 
@@ -61,10 +71,17 @@ pub fn decode_level(all: bool) -> DecodeLevel {
 
 /// `format_data_frame` for an unconfirmed-user-data header (the only data frames the library
 /// transmits): transport byte + application bytes
-pub fn link_format_data(is_master: bool, dst: u16, src: u16, transport: u8, app: &[u8]) -> Option<Vec<u8>> {
+pub fn link_format_data(
+    is_master: bool,
+    dst: u16,
+    src: u16,
+    transport: u8,
+    app: &[u8],
+) -> Option<Vec<u8>> {
     let mut buffer = [0u8; 400];
     let mut cursor = scursor::WriteCursor::new(&mut buffer);
-    let header = Header::unconfirmed_user_data(is_master, AnyAddress::from(dst), AnyAddress::from(src));
+    let header =
+        Header::unconfirmed_user_data(is_master, AnyAddress::from(dst), AnyAddress::from(src));
     match format_data_frame(header, Payload::new(transport, app), &mut cursor) {
         Ok(data) => Some(data.frame.to_vec()),
         Err(_) => None,
@@ -72,10 +89,20 @@ pub fn link_format_data(is_master: bool, dst: u16, src: u16, transport: u8, app:
 }
 
 /// `format_data_frame` with an arbitrary control byte
-pub fn link_format_data_ctrl(ctrl: u8, dst: u16, src: u16, transport: u8, app: &[u8]) -> Option<Vec<u8>> {
+pub fn link_format_data_ctrl(
+    ctrl: u8,
+    dst: u16,
+    src: u16,
+    transport: u8,
+    app: &[u8],
+) -> Option<Vec<u8>> {
     let mut buffer = [0u8; 400];
     let mut cursor = scursor::WriteCursor::new(&mut buffer);
-    let header = Header::new(ControlField::from(ctrl), AnyAddress::from(dst), AnyAddress::from(src));
+    let header = Header::new(
+        ControlField::from(ctrl),
+        AnyAddress::from(dst),
+        AnyAddress::from(src),
+    );
     match format_data_frame(header, Payload::new(transport, app), &mut cursor) {
         Ok(data) => Some(data.frame.to_vec()),
         Err(_) => None,
@@ -85,7 +112,11 @@ pub fn link_format_data_ctrl(ctrl: u8, dst: u16, src: u16, transport: u8, app: &
 /// `format_header_fixed_size` (link replies)
 pub fn link_format_header_fixed(ctrl: u8, dst: u16, src: u16) -> Vec<u8> {
     let mut buffer = [0u8; 10];
-    let header = Header::new(ControlField::from(ctrl), AnyAddress::from(dst), AnyAddress::from(src));
+    let header = Header::new(
+        ControlField::from(ctrl),
+        AnyAddress::from(dst),
+        AnyAddress::from(src),
+    );
     format_header_fixed_size(header, &mut buffer);
     buffer.to_vec()
 }
@@ -94,7 +125,11 @@ pub fn link_format_header_fixed(ctrl: u8, dst: u16, src: u16) -> Vec<u8> {
 pub fn link_format_header_only(ctrl: u8, dst: u16, src: u16) -> Option<Vec<u8>> {
     let mut buffer = [0u8; 32];
     let mut cursor = scursor::WriteCursor::new(&mut buffer);
-    let header = Header::new(ControlField::from(ctrl), AnyAddress::from(dst), AnyAddress::from(src));
+    let header = Header::new(
+        ControlField::from(ctrl),
+        AnyAddress::from(dst),
+        AnyAddress::from(src),
+    );
     match format_header_only(header, &mut cursor) {
         Ok(data) => Some(data.frame.to_vec()),
         Err(_) => None,
@@ -118,6 +153,8 @@ pub struct LinkReaderSeam {
     io: PhysLayer,
     pub handle: PipeHandle,
     level: DecodeLevel,
+    /// one payload buffer reused for every frame, as the link layer does
+    payload: FramePayload,
 }
 
 impl LinkReaderSeam {
@@ -129,6 +166,7 @@ impl LinkReaderSeam {
             io: PhysLayer::Verif(p),
             handle,
             level: decode_level(decode_all),
+            payload: FramePayload::new(),
         }
     }
 
@@ -136,9 +174,10 @@ impl LinkReaderSeam {
     pub fn drain(&mut self) -> (Vec<FrameOut>, Option<String>) {
         let mut out = Vec::new();
         loop {
-            let mut payload = FramePayload::new();
             let res = {
-                let fut = self.reader.read_frame(&mut self.io, &mut payload, self.level);
+                let fut = self
+                    .reader
+                    .read_frame(&mut self.io, &mut self.payload, self.level);
                 let mut fut = std::pin::pin!(fut);
                 poll_once(fut.as_mut())
             };
@@ -148,7 +187,7 @@ impl LinkReaderSeam {
                     ctrl: header.control.to_u8(),
                     dst: header.destination.value(),
                     src: header.source.value(),
-                    payload: payload.get().to_vec(),
+                    payload: self.payload.get().to_vec(),
                 }),
                 Poll::Ready(Err(err)) => return (out, Some(format!("{err:?}"))),
             }
@@ -174,7 +213,11 @@ pub struct TransportWriterSeam {
 impl TransportWriterSeam {
     pub fn new(is_master: bool, local: u16, decode_all: bool) -> Self {
         let (p, handle) = pipe();
-        let t = if is_master { EndpointType::Master } else { EndpointType::Outstation };
+        let t = if is_master {
+            EndpointType::Master
+        } else {
+            EndpointType::Outstation
+        };
         Self {
             writer: TransportWriter::new(t, EndpointAddress::try_new(local).unwrap()),
             io: PhysLayer::Verif(p),
@@ -185,7 +228,10 @@ impl TransportWriterSeam {
 
     /// write one fragment; returns the bytes written (one entry per physical write)
     pub fn write(&mut self, dst: u16, fragment: &[u8]) -> Result<Vec<Vec<u8>>, String> {
-        let dest = FragmentAddr { link: EndpointAddress::try_new(dst).unwrap(), phys: PhysAddr::None };
+        let dest = FragmentAddr {
+            link: EndpointAddress::try_new(dst).unwrap(),
+            phys: PhysAddr::None,
+        };
         let res = {
             let fut = self.writer.write(&mut self.io, self.level, dest, fragment);
             let mut fut = std::pin::pin!(fut);
@@ -206,8 +252,16 @@ impl TransportWriterSeam {
 #[derive(Clone, Debug, PartialEq, Eq, Hash)]
 pub enum TransportOut {
     /// a delivered fragment: id, source link address, broadcast mode (0 optional, 1 mandatory, 2 not required)
-    Fragment { id: u32, src: u16, broadcast: Option<u8>, data: Vec<u8> },
-    LinkMessage { src: u16, request: bool },
+    Fragment {
+        id: u32,
+        src: u16,
+        broadcast: Option<u8>,
+        data: Vec<u8>,
+    },
+    LinkMessage {
+        src: u16,
+        request: bool,
+    },
 }
 
 pub struct TransportReaderSeam {
@@ -218,7 +272,15 @@ pub struct TransportReaderSeam {
 }
 
 impl TransportReaderSeam {
-    pub fn new(is_master: bool, local: u16, self_address: bool, close: bool, datagram: bool, rx_size: usize, decode_all: bool) -> Self {
+    pub fn new(
+        is_master: bool,
+        local: u16,
+        self_address: bool,
+        close: bool,
+        datagram: bool,
+        rx_size: usize,
+        decode_all: bool,
+    ) -> Self {
         let (p, handle) = pipe();
         handle.set_datagram(datagram);
         let addr = EndpointAddress::try_new(local).unwrap();
@@ -228,11 +290,20 @@ impl TransportReaderSeam {
             TransportReader::outstation(
                 modes(close, datagram),
                 addr,
-                if self_address { Feature::Enabled } else { Feature::Disabled },
+                if self_address {
+                    Feature::Enabled
+                } else {
+                    Feature::Disabled
+                },
                 rx_size,
             )
         };
-        Self { reader, io: PhysLayer::Verif(p), handle, level: decode_level(decode_all) }
+        Self {
+            reader,
+            io: PhysLayer::Verif(p),
+            handle,
+            level: decode_level(decode_all),
+        }
     }
 
     /// poll `read` + `pop` until pending; returns deliveries, link replies written, first error
@@ -259,10 +330,15 @@ impl TransportReaderSeam {
                         }),
                         data: f.data.to_vec(),
                     }),
-                    Some(TransportData::LinkLayerMessage(m)) => out.push(TransportOut::LinkMessage {
-                        src: m.source.raw_value(),
-                        request: matches!(m.message, crate::transport::LinkLayerMessageType::LinkStatusRequest),
-                    }),
+                    Some(TransportData::LinkLayerMessage(m)) => {
+                        out.push(TransportOut::LinkMessage {
+                            src: m.source.raw_value(),
+                            request: matches!(
+                                m.message,
+                                crate::transport::LinkLayerMessageType::LinkStatusRequest
+                            ),
+                        })
+                    }
                 },
             }
         }
@@ -325,7 +401,12 @@ fn collect_headers(frag: &ParsedFragment) -> Result<Vec<HdrOut>, String> {
             .iter()
             .map(|h| {
                 let (group, var) = h.variation.to_group_and_var();
-                HdrOut { group, var, qual: h.details.qualifier().as_u8(), text: format!("{}", HeaderText(&h)) }
+                HdrOut {
+                    group,
+                    var,
+                    qual: h.details.qualifier().as_u8(),
+                    text: format!("{}", HeaderText(&h)),
+                }
             })
             .collect()),
     }
@@ -333,10 +414,16 @@ fn collect_headers(frag: &ParsedFragment) -> Result<Vec<HdrOut>, String> {
 
 /// Parse a fragment with the library's parser; `Err` = the 2..4 byte fragment header was rejected
 pub fn app_parse(bytes: &[u8], zero_length_strings: bool) -> Result<AppParse, String> {
-    let options = ParseOptions { parse_zero_length_strings: zero_length_strings };
+    let options = ParseOptions {
+        parse_zero_length_strings: zero_length_strings,
+    };
     let frag = ParsedFragment::parse(options, bytes).map_err(|e| format!("{e:?}"))?;
     let c = frag.control;
-    let ctrl = ((c.fir as u8) << 7) | ((c.fin as u8) << 6) | ((c.con as u8) << 5) | ((c.uns as u8) << 4) | c.seq.value();
+    let ctrl = ((c.fir as u8) << 7)
+        | ((c.fin as u8) << 6)
+        | ((c.con as u8) << 5)
+        | ((c.uns as u8) << 4)
+        | c.seq.value();
     let objects = collect_headers(&frag);
     let second = collect_headers(&frag);
     let levels = [
@@ -364,10 +451,18 @@ pub fn app_parse(bytes: &[u8], zero_length_strings: bool) -> Result<AppParse, St
 /// run `extract_measurements_inner` over a response fragment into the given handler;
 /// returns false if the fragment is not a parseable response
 pub fn app_extract(bytes: &[u8], handler: &mut dyn crate::master::ReadHandler) -> bool {
-    let options = ParseOptions { parse_zero_length_strings: true };
-    let Ok(frag) = ParsedFragment::parse(options, bytes) else { return false };
-    let Ok(resp) = frag.to_response() else { return false };
-    let Ok(objects) = resp.objects else { return false };
+    let options = ParseOptions {
+        parse_zero_length_strings: true,
+    };
+    let Ok(frag) = ParsedFragment::parse(options, bytes) else {
+        return false;
+    };
+    let Ok(resp) = frag.to_response() else {
+        return false;
+    };
+    let Ok(objects) = resp.objects else {
+        return false;
+    };
     crate::master::extract::extract_measurements_inner(objects, handler);
     true
 }
@@ -413,14 +508,21 @@ pub fn control_field(x: u8) -> crate::app::ControlField {
 /// task errors whose payload types cannot be built outside the crate
 pub fn task_errors_with_private_payloads() -> Vec<crate::master::TaskError> {
     vec![
-        crate::master::TaskError::Link(crate::link::error::LinkError::Stdio(std::io::ErrorKind::BrokenPipe)),
-        crate::master::TaskError::BadEncoding(crate::master::BadEncoding::Attribute(crate::app::attr::BadAttribute::BadLength(300))),
+        crate::master::TaskError::Link(crate::link::error::LinkError::Stdio(
+            std::io::ErrorKind::BrokenPipe,
+        )),
+        crate::master::TaskError::BadEncoding(crate::master::BadEncoding::Attribute(
+            crate::app::attr::BadAttribute::BadLength(300),
+        )),
     ]
 }
 
 /// an attribute type error (fields are crate-private)
 pub fn attr_type_error() -> crate::app::attr::TypeError {
-    crate::app::attr::TypeError::new(crate::app::attr::AttrDataType::UnsignedInt, crate::app::attr::AttrDataType::SignedInt)
+    crate::app::attr::TypeError::new(
+        crate::app::attr::AttrDataType::UnsignedInt,
+        crate::app::attr::AttrDataType::SignedInt,
+    )
 }
 
 /// an attribute variation list parsed from its encoding `[254, len, (variation, properties)*]`
